@@ -351,3 +351,30 @@ func ifOf(b *ssa.BasicBlock) *ssa.If {
 	i, _ := b.Instrs[len(b.Instrs)-1].(*ssa.If)
 	return i
 }
+
+// FactHolds reports whether, whenever control is in block b, the comparison (L op R) is known to be true
+// (a dominating If on a spelling of that comparison whose corresponding successor has the If as only predecessor).
+func FactHolds(b *ssa.BasicBlock, op token.Token, l, r VPat) bool {
+	pat := &CmpPat{Op: op, L: l, R: r, PassWhen: true}
+	for _, e := range edgeFacts(b) {
+		i := ifOf(e.From)
+		if i == nil {
+			continue
+		}
+		atom, neg := condAtom(i.Cond)
+		bin, ok := atom.(*ssa.BinOp)
+		if !ok {
+			continue
+		}
+		holds, ok := pat.match(bin)
+		if !ok {
+			continue
+		}
+		condTrueMeans := holds != neg
+		taken := e.Succ == 0 // cond evaluated true on this edge
+		if condTrueMeans == taken {
+			return true
+		}
+	}
+	return false
+}
